@@ -21,4 +21,5 @@ func registerStreams(m map[string]Stream) {
 	m["c18"] = c18Stream{}
 	m["tdrace"] = tdRaceStream{}
 	m["tdstore"] = tdStoreStream{}
+	m["clientwire"] = clientWireStream{}
 }
